@@ -702,6 +702,57 @@ def kind_separation(ctx: Ctx, rule):
     ok = eq_separates or hash_separates
     res.ob("Identifier vs QualifiedName of one URI: equality separates the classes: %s; %s" % (eq_separates, how))
     res.ob("kind tables keyed by qualified names and attribute-value sets rely on that separation: %s" % ("kept" if ok else "LOST"))
+    # equality stays inside the Identifier family: QualifiedName hashes like its URI *string*, so an __eq__ that answers True for a
+    # plain str makes a qualified-name value and the string of its URI one member of a value set
+    family = {c for c in ctx.p.classes if ID in ctx.p.mro(c)}
+
+    def family_test(t, other):
+        """isinstance(other, C) with C in the Identifier family (possibly a conjunct)"""
+        for x in ([t] + (list(t.values) if isinstance(t, ast.BoolOp) and isinstance(t.op, ast.And) else [])):
+            if isinstance(x, ast.Call) and call_name(x) == "isinstance" and len(x.args) == 2 and norm(x.args[0]) == other:
+                types = x.args[1].elts if isinstance(x.args[1], ast.Tuple) else [x.args[1]]
+                rs = [ctx.p.resolve_dotted(ctx.fn(eq_i).module, ty) if dotted(ty) else None for ty in types]
+                if rs and all(r and r[0] == "class" and r[1] in family for r in rs):
+                    return True
+        return False
+
+    def const_false(v):
+        return (isinstance(v, ast.Constant) and v.value in (False, None)) or (isinstance(v, ast.Name) and v.id == "NotImplemented")
+
+    for eq in sorted({eq_i, eq_q}):
+        fi = ctx.fn(eq)
+        if len(fi.params) < 2:
+            continue
+        other = fi.params[1]
+        parents = {}
+        for n in ast.walk(fi.node):
+            for ch in ast.iter_child_nodes(n):
+                parents[id(ch)] = n
+        body0 = fi.node.body
+        for r in [n for n in walk_function(fi.node) if isinstance(n, ast.Return) and n.value is not None]:
+            v = r.value
+            okr = const_false(v)
+            okr = okr or (isinstance(v, ast.IfExp) and family_test(v.test, other) and const_false(v.orelse))
+            okr = okr or (isinstance(v, ast.BoolOp) and isinstance(v.op, ast.And) and family_test(v.values[0], other))
+            # under `if isinstance(other, Family):`
+            cur = r
+            while not okr and id(cur) in parents:
+                p = parents[id(cur)]
+                if isinstance(p, ast.If) and any(cur is b for b in p.body) and family_test(p.test, other):
+                    okr = True
+                cur = p
+            # after a guard clause `if not isinstance(other, Family): return False`
+            if not okr:
+                for st in body0:
+                    if st is r or any(x is r for x in ast.walk(st)):
+                        break
+                    if isinstance(st, ast.If) and isinstance(st.test, ast.UnaryOp) and isinstance(st.test.op, ast.Not) and family_test(st.test.operand, other) and st.body and isinstance(st.body[-1], ast.Return) and const_false(st.body[-1].value):
+                        okr = True
+            res.ob("%s: `return %s` can be true only for an operand of the Identifier family: %s" % (short(eq), norm(v)[:50], okr))
+            if not okr:
+                res.fail(rule.id, "identifier-equals-foreign-type::%s" % eq, ctx.loc(eq, r),
+                         "%s can answer True for an operand that is not an Identifier (`return %s`): a QualifiedName hashes like the string of its URI, so the two become one member of a value set" % (short(eq), norm(v)[:50]),
+                         "records whose prov:type is the qualified name ex:thing and the plain string 'http://example.org/thing' compare equal, in both orders, although they serialise differently")
     if not ok:
         res.fail(rule.id, "kinds-collapse::Identifier~QualifiedName", ctx.loc(h_q, ctx.fn(h_q).node),
                  "an xsd:anyURI Identifier and a QualifiedName with the same URI compare equal and now hash alike (%s): they collapse in attribute-value sets and match each other in the kind tables" % how,
@@ -904,6 +955,119 @@ RULES.setdefault("C03", []).append(Rule("C03.R12", "ProvBundle.add_namespace alw
 # ------------------------------------------------------------------------------------------ every rule of this module sees NamespaceManager
 # with its private helpers inlined into their callers (sa/inline.py): must-facts, value provenance and store pairing are then the
 # same whether or not a block of add_namespace / valid_qualified_name has been extracted into a helper method.
+def resolver_cache_rule(ctx: Ctx, rule):
+    """A table into which the *resolver* (valid_qualified_name and the private methods it delegates to - not the registrar) writes
+    its own answers is a result cache.  Two necessary conditions for such a cache to keep clause (c):
+    (a) it never holds an answer obtained from another scope (`self.parent.valid_qualified_name(..)`): that scope changes without
+        this one hearing of it;
+    (b) wherever state the resolver reads is written (the manager's own dict, the default namespace, the renamed-prefix table), the
+        cache is emptied on every path through that write.
+    Vacuous when the resolver keeps no such table (today)."""
+    res = RuleResult()
+    ft, owned, default = manager_fields(ctx)
+    registrars = {"add_namespace", "add_namespaces", "set_default_namespace", "__init__"} | set(unused_prefix_summary(ctx))
+    methods = ctx.p.classes[NSM].methods
+    rc = [q for q in ctx.helper_closure(NSM + ".valid_qualified_name", 2) if q.startswith(NSM + ".") and q.rsplit(".", 1)[1] not in registrars]
+    # result caches: fields of the manager the resolver stores into under a key
+    caches = {}
+    for q in rc:
+        for n in walk_function(ctx.fn(q).node):
+            tgt = None
+            if isinstance(n, ast.Assign):
+                for t in n.targets:
+                    if isinstance(t, ast.Subscript) and isinstance(t.value, ast.Attribute) and norm(t.value.value) == "self":
+                        tgt = (t.value.attr, n.value)
+            elif isinstance(n, ast.Call) and call_name(n) == "setdefault" and isinstance(n.func.value, ast.Attribute) and norm(n.func.value.value) == "self" and len(n.args) == 2:
+                tgt = (n.func.value.attr, n.args[1])
+            if tgt and tgt[0] in ft:
+                caches.setdefault(tgt[0], []).append((q, n, tgt[1]))
+    res.ob("tables the resolver (%s) writes its answers into: %s" % ([short(q) for q in rc], sorted(caches) or "none"), nontrivial=bool(caches))
+    if not caches:
+        return res
+    # what the resolver reads
+    reads = set()
+    reads_self_dict = False
+    for q in rc:
+        for n in walk_function(ctx.fn(q).node):
+            if isinstance(n, ast.Attribute) and norm(n.value) == "self" and isinstance(n.ctx, ast.Load) and n.attr in ft:
+                reads.add(n.attr)
+            if isinstance(n, ast.Subscript) and norm(n.value) == "self" or (isinstance(n, ast.Compare) and any(norm(c) == "self" for c in n.comparators)) or \
+               (isinstance(n, ast.Call) and isinstance(n.func, ast.Attribute) and norm(n.func.value) == "self" and n.func.attr in ("values", "items", "keys", "get")):
+                reads_self_dict = True
+    for F, stores in sorted(caches.items()):
+        # (a) answers from another scope
+        def foreign_calls(q, expr, depth=0):
+            out = []
+            fi = ctx.fn(q)
+            expr = resolve_local(fi.node, expr) if isinstance(expr, ast.Name) else expr
+            cands = [expr]
+            if isinstance(expr, ast.Name):
+                cands = [d for d in all_assignments(fi.node, expr.id) if d is not None]
+            for e in cands:
+                for c in [x for x in ast.walk(e) if isinstance(x, ast.Call) and isinstance(x.func, ast.Attribute)]:
+                    recv = norm(c.func.value)
+                    if c.func.attr in methods and recv != "self" and recv.startswith("self."):
+                        out.append((q, c))
+                    elif c.func.attr in methods and recv == "self" and depth < 2 and c.func.attr not in registrars:
+                        hq = methods[c.func.attr]
+                        for r in [x for x in walk_function(ctx.fn(hq).node) if isinstance(x, ast.Return) and x.value is not None]:
+                            out += foreign_calls(hq, r.value, depth + 1)
+            return out
+        for q, n, val in stores:
+            fc = foreign_calls(q, val)
+            res.ob("%s: `%s` can hold an answer of another scope: %s" % (short(q), norm(n)[:60], bool(fc)))
+            for fq, c in fc[:1]:
+                res.fail(rule.id, "foreign-scope-answer-cached::%s" % F, ctx.loc(fq, c),
+                         "the resolver keeps in self.%s what `%s` answered: that scope's namespaces change without this cache being emptied" % (F, norm(c)[:60]),
+                         "a bundle resolves 'e1' through its document's default namespace; the document's default is then set to another URI: the bundle still resolves 'e1' to the old URI, lookups by string and by URI disagree")
+        # (b) every write of resolver-read state empties the cache
+        def clears(fnode):
+            out = []
+            for x in walk_function(fnode):
+                if isinstance(x, ast.Call) and isinstance(x.func, ast.Attribute) and x.func.attr == "clear" and norm(x.func.value) == "self." + F:
+                    out.append(x)
+                if isinstance(x, ast.Assign) and any(norm(t) == "self." + F for t in x.targets):
+                    out.append(x)
+            return out
+        always_clearing = {m for m, mq in methods.items() if any(any(c is st or (isinstance(st, ast.Expr) and st.value is c) for st in ctx.fn(mq).node.body) for c in clears(ctx.fn(mq).node))}
+        writes = []
+        for q, n, how, key in self_dict_writes(ctx):
+            if reads_self_dict and not q.endswith(".__init__"):
+                writes.append((q, n, "self[%s]" % (norm(key) if key is not None else "..")))
+        for sx in mutation_sites(ctx, (reads | default) - {F}):
+            if sx.func.startswith(NSM + ".") and not sx.func.endswith(".__init__") and sx.receiver == "self":
+                writes.append((sx.func, sx.node, sx.text[:40]))
+        for q, n, what in writes:
+            fi = ctx.fn(q)
+            g = get_cfg(ctx, q)
+            cl = clears(fi.node) + [c for c in calls_in(fi.node) if isinstance(c.func, ast.Attribute) and norm(c.func.value) == "self" and c.func.attr in always_clearing]
+            cl_ids = set()
+            for c in cl:
+                try:
+                    cl_ids.add(node_of(g, c).id)
+                except Exception:
+                    pass
+            try:
+                wn = node_of(g, n)
+            except Exception:
+                continue
+            before = g.find_path(g.entry, wn, avoid=lambda x: x.id in cl_ids, labels_excluded=("exc", "raise")) is not None if wn.id not in cl_ids else False
+            after = any(g.find_path(wn, ex, avoid=lambda x: x.id in cl_ids and x.id != wn.id, labels_excluded=("exc", "raise")) is not None for ex in [g.exit]) if wn.id not in cl_ids else False
+            ok = not (before and after)
+            res.ob("%s: write `%s` of state the resolver reads: self.%s emptied on every path through it: %s" % (short(q), what, F, ok))
+            if not ok:
+                res.fail(rule.id, "cache-not-emptied::%s::%s" % (F, q), ctx.loc(q, n),
+                         "%s writes %s, which the resolver reads, on a path that never empties the result cache self.%s" % (short(q), what, F),
+                         "a bare name is looked up while the scope has no default namespace (None is cached); the scope then adopts a default from an un-prefixed QualifiedName: the bare name it has just handed out still resolves to None")
+    return res
+
+
+RULES.setdefault("C03", []).append(Rule("C03.R14", "a result cache of the resolver never holds another scope's answer and is emptied wherever resolver-read state is written", 0, resolver_cache_rule, "F-PATH",
+                                        "clause (c): a name printed by the scope resolves the same way after any later registration or default-namespace change"))
+RULES.setdefault("C18", []).append(Rule("C18.R13", "a result cache of the resolver never holds another scope's answer and is emptied with the state it depends on (shared with C03.R14)", 0, resolver_cache_rule, "F-PATH",
+                                        "get_record by string, by QualifiedName and by full URI keep agreeing after the document's namespaces change"))
+
+
 def _with_inlined_manager(fn):
     def run(ctx, rule):
         from ..inline import inlined_view
